@@ -14,11 +14,11 @@ import (
 func init() {
 	register(&propSpec{ID: "C06", Run: checkC06,
 		Explanation: "The decision table of the scan body: the delta before overrides is a φ whose incoming values are −fast_rate, −slow_rate, calcScaleUpDelta(untainted,…) and 0, selected — as equivalences relative to reaching the dispatch, modulo strictness at the band edges — by u below lower / between lower and upper / above scale-up / otherwise, with u = max(cpu%, mem%) of calcPercentUsage; every later definition is max(d,1) guarded by isScaleOnStarve / scaleOnMaxNodeAge; ScaleDown runs iff d<0 with count −d, ScaleUp iff d>0 with count d, otherwise only the reaper; ScaleUp cannot reach a taint, ScaleDown cannot reach an untaint or cloud increase; the taint count is min(rate, |U| − min_nodes) (both upper bounds entailed, value equal to one of them).",
-		RuleText:    "R1 band table (4 equivalences), R2 overrides, R3 dispatch (3 guards + completeness + counts), R4 reachability of action classes per arm, R5 exact count, R6 definition of u, R7 the taint loop performs exactly that many successful writes unless the list runs out (bounded accumulator over the whole sorted list), R8 validation admits only ordered thresholds and rates (shared with C16.R1), R9 the taint candidates are all untainted nodes, oldest first",
+		RuleText:    "R1 band table (4 equivalences), R2 overrides, R3 dispatch (3 guards + completeness + counts), R4 reachability of action classes per arm, R5 exact count, R6 definition of u, R7 the taint loop performs exactly that many successful writes unless the list runs out (bounded accumulator over the whole sorted list), R8 validation admits only ordered thresholds and rates (shared with C16.R1), R9 the taint candidates are all untainted nodes, oldest first, R10 every candidate the loop reaches is attempted, R11 the starve trigger compares like with like",
 		Assumptions: []string{"floating-point rounding of u and behaviour exactly at a threshold are not decided (the statement leaves the edges open)"}})
 	register(&propSpec{ID: "C07", Run: checkC07,
 		Explanation: "In ScaleUp the untaint step dominates the cloud step, which runs only when the untaint step returned no error; the cloud step is asked for exactly N − (#untainted) and only if that is ≥ 1; the untaint loop is a bounded accumulator over every tainted node in newest-first order (comparator cross-checked against the oldest-first one); and no function reachable from the scan body reads the cached ASG desired capacity for a decision after an AWS mutation that was not mirrored into the cache (typestate over MUT / SYNC / READ with per-function summaries).",
-		RuleText:    "R1 order, R2 remainder, R3 loop, R4 comparator, R5 typestate on the provider cache, R6 absolute set (shared with C17.R2)",
+		RuleText:    "R1 order, R2 remainder, R3 loop, R4 comparator, R5 typestate on the provider cache, R6 absolute set (shared with C17.R2), R7 write confirmed, R8 every tainted node the loop reaches is attempted",
 		Assumptions: []string{"failed-but-applied writes and AWS eventual consistency are not decided"}})
 	register(&propSpec{ID: "C08", Run: checkC08,
 		Explanation: "The taint loop walks a complete copy of the untainted list (one bundle per element, unconditional), sorted by a Less that reduces to CreationTimestamp(i).Before(CreationTimestamp(j)) before the loop starts, in index order, tainting the current element's node, leaving only by exhaustion or when n writes succeeded, and continuing after a failed write.",
@@ -520,6 +520,10 @@ func checkC06(ck *Check) {
 	// R9 the loop draws from every untainted node: the candidate list holds one entry per element of
 	// the list the clamp and the band were computed over (decided as C08.R1)
 	ck.sortBeforeLoop("C06.R9", a.TaintLoop, "A-TAINT", 1, "CreationTimestamp(i).Before(CreationTimestamp(j)) (oldest first)")
+	// R10 every candidate the loop reaches is attempted
+	ck.everyCandidateAttempted("C06.R10", a.TaintLoop, "A-TAINT")
+	// R11 the starve trigger is what the documentation says: a pending pod that fits on no node
+	ck.starvePredicate("C06.R11")
 	// R8 the statement quantifies over the triples and rate pairs validation accepts: the band switch
 	// (first true case wins) is the documented table only if 0 < lower < upper < scale-up, 0 ≤ slow ≤ fast
 	if a.Validate != nil {
@@ -924,6 +928,8 @@ func checkC07(ck *Check) {
 	ck.boundedEffectLoop("C07.R3", a.UntaintLoop, "A-UNTAINT")
 	ck.untaintAgreement("C07.R3")
 	ck.sortBeforeLoop("C07.R4", a.UntaintLoop, "A-UNTAINT", -1, "CreationTimestamp(j).Before(CreationTimestamp(i)) (newest first)")
+	// R8 every tainted node the loop reaches is attempted
+	ck.everyCandidateAttempted("C07.R8", a.UntaintLoop, "A-UNTAINT")
 	// R5 typestate
 	ck.cacheTypestate("C07.R5")
 	// R6
@@ -956,4 +962,103 @@ func (ck *Check) isParamStruct(t *Term) bool {
 		base = c.Args[0]
 	}
 	return true
+}
+
+// starvePredicate (C06.R11): scale_on_starve turns the decision into a scale-up "whenever there is a
+// pod that cannot currently be scheduled due to no node having capacity to run it". The
+// predicate summarises that per dimension: the largest pending request of a dimension exceeds the
+// largest free amount *of that same dimension*. Decided on the predicate's result formula:
+// it implies the option, room below max_nodes, and one of the properly paired comparisons
+// (LargestAvailable<D>.<d> < LargestPending<D>.<d>, D and d the same dimension); no comparison
+// pairs different dimensions or a pending amount with the free amount of the node that is roomiest
+// in the *other* dimension — that would fire for pods that fit.
+func (ck *Check) starvePredicate(rule string) {
+	fn := ck.A.IsStarve
+	if fn == nil {
+		ck.lost(rule, "scale_on_starve predicate", "not resolved")
+		return
+	}
+	got, ok := ck.qResult(ck.P.NewCtx(fn), fn, 0)
+	if !ok {
+		ctx := ck.P.NewCtx(fn)
+		got = ctx.returnFormula(0)
+	}
+	type side struct {
+		leaf, parent string
+	}
+	sideOf := func(t *Term) (side, bool) {
+		if t.Kind != "field" || len(t.Args) != 1 {
+			return side{}, false
+		}
+		p := t.Args[0]
+		for p != nil && p.Kind != "field" && len(p.Args) == 1 {
+			p = p.Args[0] // through deref / &
+		}
+		if p == nil || p.Kind != "field" || !strings.HasPrefix(p.Name, "Largest") {
+			return side{}, false
+		}
+		return side{t.Name, p.Name}, true
+	}
+	dimOf := func(name string) string {
+		switch {
+		case strings.HasSuffix(name, "CPU"):
+			return "cpu"
+		case strings.HasSuffix(name, "Memory"):
+			return "mem"
+		}
+		return "?"
+	}
+	var proper []*Formula
+	var bad []string
+	dims := map[string]bool{}
+	for _, at := range got.Atoms() {
+		if at.Kind != "cmp" || len(at.Args) != 2 {
+			continue
+		}
+		l, okl := sideOf(at.Args[0])
+		r, okr := sideOf(at.Args[1])
+		if !okl && !okr {
+			continue
+		}
+		if !okl || !okr {
+			if at.Name == "==" {
+				continue // emptiness tests of one side (IsEmpty)
+			}
+			bad = append(bad, at.String())
+			continue
+		}
+		okPair := at.Name == "<" && strings.HasPrefix(l.parent, "LargestAvailable") && strings.HasPrefix(r.parent, "LargestPending") &&
+			dimOf(l.leaf) == dimOf(r.leaf) && dimOf(l.parent) == dimOf(l.leaf) && dimOf(r.parent) == dimOf(r.leaf) && dimOf(l.leaf) != "?"
+		if !okPair {
+			bad = append(bad, at.String())
+			continue
+		}
+		dims[dimOf(l.leaf)] = true
+		proper = append(proper, Atom(at))
+	}
+	ck.cond(len(bad) == 0, rule, "starve/pairing", ck.P.position(fn.Pos()), funcID(fn), "every comparison of the starve predicate pairs the largest pending request of a dimension with the largest free amount of the same dimension", strings.Join(bad, "; "), "the trigger fires for pods that fit on some node: escalator adds a node instead of tainting")
+	ck.cond(dims["cpu"] && dims["mem"], rule, "starve/both-dimensions", ck.P.position(fn.Pos()), funcID(fn), "both cpu and memory are examined", fmt.Sprint(dims), "")
+	if len(proper) > 0 {
+		imp, why, err := Entails(got, Or(proper...))
+		if err != nil {
+			ck.undecided(rule, "starve/necessary", ck.P.position(fn.Pos()), funcID(fn), "starve ⇒ some pending request exceeds the largest free amount of its dimension", err.Error())
+		} else {
+			ck.cond(imp, rule, "starve/necessary", ck.P.position(fn.Pos()), funcID(fn), "starve ⇒ some pending request exceeds the largest free amount of its dimension", "", why)
+		}
+	}
+	// the option and the head-room below max_nodes
+	var opt, room *Formula
+	for _, at := range got.Atoms() {
+		if at.Kind == "field" && at.Name == "ScaleOnStarve" {
+			opt = Atom(at)
+		}
+		if at.Kind == "cmp" && at.Name == "<" && at.Args[1].Kind == "field" && at.Args[1].Name == "MaxNodes" {
+			room = Atom(at) // the number of untainted nodes (len of the list, or a count handed in) below max_nodes
+		}
+	}
+	okOpt := false
+	if opt != nil && room != nil {
+		okOpt, _, _ = Entails(got, And(opt, room))
+	}
+	ck.cond(okOpt, rule, "starve/enabled", ck.P.position(fn.Pos()), funcID(fn), "starve ⇒ scale_on_starve ∧ untainted < max_nodes", "", "the trigger ignores the option or the maximum")
 }
